@@ -4,12 +4,18 @@ package main
 
 import (
 	"fmt"
+	"net"
 	"os"
 	"path/filepath"
 	"sort"
+	"strconv"
 	"strings"
 
 	"bfeverif/harness/internal/vh"
+	"github.com/bfenetworks/bfe/bfe_balance/bal_gslb"
+	"github.com/bfenetworks/bfe/bfe_balance/bal_slb"
+	"github.com/bfenetworks/bfe/bfe_config/bfe_cluster_conf/cluster_table_conf"
+	"github.com/bfenetworks/bfe/bfe_config/bfe_cluster_conf/gslb_conf"
 	"github.com/bfenetworks/bfe/bfe_basic"
 	"github.com/bfenetworks/bfe/bfe_config/bfe_route_conf/host_rule_conf"
 	"github.com/bfenetworks/bfe/bfe_http"
@@ -54,6 +60,9 @@ func once(file string, probes []string) string {
 }
 
 func exec(op string) string {
+	if strings.HasPrefix(op, "gslb ") {
+		return execGslb(op[5:])
+	}
 	if !strings.HasPrefix(op, "cfg ") {
 		return "bad-op"
 	}
@@ -76,6 +85,248 @@ func exec(op string) string {
 	}
 	sort.Strings(out)
 	return strings.Join(out, "|")
+}
+
+
+// ---- gslb: the same gslb conf reached by a fresh load and through a reload history -------------------------------
+//
+// op = `gslb <hist>~<final>~<probes>`: hist = confs separated by `;` (or `-`), conf = `name=w,name=w,…`,
+// probes = `<client ip>:<GetHash(ip, total weight of final)>,…`.  Every variant is built several times (Go ranges over
+// the conf maps in random order).  result = `fresh=<subs per probe>;hist=<subs per probe>`; several vectors joined
+// by `|` if repeats differ.
+
+const gslbRepeats = 6
+
+func parseConf(s string) (gslb_conf.GslbClusterConf, bool) {
+	c := gslb_conf.GslbClusterConf{}
+	for _, kv := range strings.Split(s, ",") {
+		i := strings.LastIndexByte(kv, '=')
+		if i <= 0 {
+			return nil, false
+		}
+		w, err := strconv.Atoi(kv[i+1:])
+		if err != nil {
+			return nil, false
+		}
+		if _, dup := c[kv[:i]]; dup {
+			return nil, false
+		}
+		c[kv[:i]] = w
+	}
+	return c, true
+}
+
+func gslbBackends(confs []gslb_conf.GslbClusterConf) cluster_table_conf.ClusterBackend {
+	cb := cluster_table_conf.ClusterBackend{}
+	k := 0
+	for _, c := range confs {
+		for sub := range c {
+			if _, ok := cb[sub]; ok {
+				continue
+			}
+			k++
+			name, addr, port, weight := "bk-"+sub, fmt.Sprintf("10.0.%d.%d", k/250, k%250+1), 8080, 10
+			cb[sub] = cluster_table_conf.SubClusterBackend{&cluster_table_conf.BackendConf{Name: &name, Addr: &addr, Port: &port, Weight: &weight}}
+		}
+	}
+	return cb
+}
+
+func gslbDecide(bal *bal_gslb.BalanceGslb, ips []string) string {
+	out := make([]string, len(ips))
+	for i, ip := range ips {
+		req := new(bfe_basic.Request)
+		req.HttpRequest = new(bfe_http.Request)
+		req.RemoteAddr = &net.TCPAddr{IP: net.ParseIP(ip), Port: 80}
+		req.ClientAddr = req.RemoteAddr
+		bal.Balance(req)
+		out[i] = req.Backend.SubclusterName
+		if out[i] == "" {
+			out[i] = "-"
+		}
+	}
+	return strings.Join(out, ",")
+}
+
+func gslbRun(steps []gslb_conf.GslbClusterConf, backends cluster_table_conf.ClusterBackend, ips []string) string {
+	seen := map[string]bool{}
+	for k := 0; k < gslbRepeats; k++ {
+		bal := bal_gslb.NewBalanceGslb("c14")
+		if err := bal.Init(steps[0]); err != nil {
+			seen["err"] = true
+			continue
+		}
+		bal.BackendInit(backends)
+		for _, c := range steps[1:] {
+			if err := bal.Reload(c); err == nil {
+				bal.BackendReload(backends)
+			}
+		}
+		seen[gslbDecide(bal, ips)] = true
+		bal.Release()
+	}
+	var out []string
+	for k := range seen {
+		out = append(out, k)
+	}
+	sort.Strings(out)
+	return strings.Join(out, "|")
+}
+
+func execGslb(body string) string {
+	parts := strings.Split(body, "~")
+	if len(parts) != 3 {
+		return "bad-op"
+	}
+	var hist []gslb_conf.GslbClusterConf
+	if parts[0] != "-" {
+		for _, cs := range strings.Split(parts[0], ";") {
+			c, ok := parseConf(cs)
+			if !ok {
+				return "bad-op"
+			}
+			hist = append(hist, c)
+		}
+	}
+	final, ok := parseConf(parts[1])
+	if !ok {
+		return "bad-op"
+	}
+	var ips []string
+	for _, p := range strings.Split(parts[2], ",") {
+		i := strings.LastIndexByte(p, ':')
+		if i <= 0 {
+			return "bad-op"
+		}
+		ips = append(ips, p[:i])
+	}
+	all := append(append([]gslb_conf.GslbClusterConf{}, hist...), final)
+	backends := gslbBackends(all)
+	return "fresh=" + gslbRun([]gslb_conf.GslbClusterConf{final}, backends, ips) + ";hist=" + gslbRun(all, backends, ips)
+}
+
+// names chosen so that additions sort before, between and after existing sub-clusters
+// (upper case < digits < lower case in byte order)
+var gslbNames = []string{"0.first", "A.x", "GSLB_BLACKHOLE", "a.bj", "b.gz", "c.hz", "idc-a", "m.mid", "z9", "zz.last"}
+var gslbIPs = []string{"1.1.1.1", "2.2.2.2", "10.20.30.40", "192.168.7.9", "8.8.4.4", "172.16.0.200"}
+
+func genConf(r *vh.Rand, valid bool) ([]string, []int) {
+	names := subset(r, gslbNames, 1, 5)
+	// map order is random in Go anyway; shuffle the textual order too
+	for i := len(names) - 1; i > 0; i-- {
+		j := r.Intn(i + 1)
+		names[i], names[j] = names[j], names[i]
+	}
+	ws := make([]int, len(names))
+	mode := r.Intn(4)
+	for i := range ws {
+		switch {
+		case mode == 0: // exactly one weighted sub-cluster (bal.single)
+			ws[i] = 0
+		case r.Chance(1, 3):
+			ws[i] = 0
+		case r.Chance(1, 10):
+			ws[i] = -1
+		default:
+			ws[i] = r.Range(1, 100)
+		}
+	}
+	if mode == 0 {
+		ws[r.Intn(len(ws))] = r.Range(1, 100)
+	}
+	if valid {
+		tot := 0
+		for _, w := range ws {
+			if w > 0 {
+				tot += w
+			}
+		}
+		if tot == 0 {
+			ws[r.Intn(len(ws))] = r.Range(1, 100)
+		}
+	} else if r.Chance(1, 2) {
+		for i := range ws {
+			if ws[i] > 0 {
+				ws[i] = 0
+			}
+		}
+	}
+	return names, ws
+}
+
+func subset(r *vh.Rand, pool []string, lo, hi int) []string {
+	n := r.Range(lo, hi)
+	idx := make([]int, len(pool))
+	for i := range idx {
+		idx[i] = i
+	}
+	for i := len(idx) - 1; i > 0; i-- {
+		j := r.Intn(i + 1)
+		idx[i], idx[j] = idx[j], idx[i]
+	}
+	out := make([]string, 0, n)
+	for _, i := range idx[:n] {
+		out = append(out, pool[i])
+	}
+	return out
+}
+
+func fmtConf(names []string, ws []int) string {
+	p := make([]string, len(names))
+	for i := range names {
+		p[i] = fmt.Sprintf("%s=%d", names[i], ws[i])
+	}
+	return strings.Join(p, ",")
+}
+
+func genGslb(r *vh.Rand) string {
+	fn, fw := genConf(r, true)
+	nh := r.Intn(4)
+	var hist []string
+	for i := 0; i < nh; i++ {
+		valid := i == 0 || !r.Chance(1, 6)
+		hn, hw := genConf(r, valid)
+		if r.Chance(1, 2) {
+			// a history step that is a sub-set / re-weighting of the final conf: the final reload ADDS sub-clusters
+			k := r.Range(1, len(fn))
+			hn = append([]string(nil), fn[:k]...)
+			hw = make([]int, k)
+			for j := range hw {
+				hw[j] = fw[j]
+				if r.Chance(1, 3) {
+					hw[j] = r.Range(0, 100)
+				}
+			}
+			tot := 0
+			for _, w := range hw {
+				if w > 0 {
+					tot += w
+				}
+			}
+			if tot == 0 && valid {
+				hw[0] = r.Range(1, 100)
+			}
+		}
+		hist = append(hist, fmtConf(hn, hw))
+	}
+	h := "-"
+	if len(hist) > 0 {
+		h = strings.Join(hist, ";")
+	}
+	total := 0
+	for _, w := range fw {
+		if w > 0 {
+			total += w
+		}
+	}
+	np := r.Range(2, 5)
+	var probes []string
+	off := r.Intn(len(gslbIPs))
+	for i := 0; i < np; i++ {
+		ip := gslbIPs[(off+i)%len(gslbIPs)]
+		probes = append(probes, fmt.Sprintf("%s:%d", ip, bal_slb.GetHash(net.ParseIP(ip), uint(total))))
+	}
+	return "gslb " + h + "~" + fmtConf(fn, fw) + "~" + strings.Join(probes, ",")
 }
 
 // ---- generator -------------------------------------------------------------------------------
@@ -110,6 +361,9 @@ func jlist(xs []string) string {
 }
 
 func gen(r *vh.Rand) string {
+	if r.Chance(1, 2) {
+		return genGslb(r)
+	}
 	nprod := r.Range(1, 3)
 	ntag := r.Range(1, 3)
 	tags := []string{"t1", "t2", "t3"}[:ntag]
